@@ -24,10 +24,11 @@ const (
 	RTyped
 	RRec
 	RTail
+	RRedef // self tail call of a function that REPLACES, in a later evaluation, a function of the same name and arity whose formals have the opposite laziness
 	nRoutes
 )
 
-var routeName = []string{"direct", "alias", "param", "computed", "apply", "map", "typed", "recursion", "selftail"}
+var routeName = []string{"direct", "alias", "param", "computed", "apply", "map", "typed", "recursion", "selftail", "redef-selftail"}
 
 type Pattern int
 
@@ -93,7 +94,15 @@ func allShapes() []Shape {
 	return out
 }
 
+// caller kinds: the function that contains the call is a plain defn, or a closure made one /
+// two function levels below the variables k (k2) that the argument expressions mention
+const nCallerKinds = 3
+
+var callerKindName = []string{"defn", "closure1", "closure2"}
+
 type GridCase struct {
+	Caller  int // caller kind
+	Split   int // > 0: the first Split forms are a separate, earlier evaluation
 	Shape   Shape
 	Route   Route
 	Pat     Pattern
@@ -115,16 +124,16 @@ func pname(i int, lazy bool) string {
 func plus(a, b *Node) *Node { return CallN("+", a, b) }
 
 // argument expression of kind k with marker m, reading the variable base
-func argExpr(k ArgKind, base string, m int64) *Node {
+func argExpr(k ArgKind, base func() *Node, m int64) *Node {
 	switch k {
 	case KFail:
-		return CallN("failk", plus(Var(base), Int(m)))
+		return CallN("failk", plus(base(), Int(m)))
 	case KUnbound:
 		return Var("ub")
 	case KTypeErr:
-		return CallN("first", plus(Var(base), Int(m)))
+		return CallN("first", plus(base(), Int(m)))
 	}
-	return Begin(Set("cnt", plus(Var("cnt"), Int(1))), CallN("trace", plus(Var(base), Int(m))))
+	return Begin(Set("cnt", plus(Var("cnt"), Int(1))), CallN("trace", plus(base(), Int(m))))
 }
 
 // canonical rendering (format of refgen.RenderValue) of the source form of an expression, as
@@ -236,7 +245,7 @@ func (gc *GridCase) Build() {
 	sh, route, pat := gc.Shape, gc.Route, gc.Pat
 	k := len(sh.Lazy)
 	nargs := len(gc.Kinds)
-	rec := route == RRec || route == RTail
+	rec := route == RRec || route == RTail || route == RRedef
 	failAt := 0
 	for _, kd := range gc.Kinds {
 		if kd == KFail {
@@ -306,8 +315,19 @@ func (gc *GridCase) Build() {
 
 	// ---- the call
 	var args []*Node
+	// the base of every argument expression: the caller's local a (100), plus, when the caller is
+	// a closure, the variables it captured from the enclosing function(s) (all 0)
+	base := func() *Node {
+		switch gc.Caller {
+		case 1:
+			return plus(Var("a"), Var("k"))
+		case 2:
+			return plus(Var("a"), plus(Var("k"), Var("k2")))
+		}
+		return Var("a")
+	}
 	for i, kd := range gc.Kinds {
-		args = append(args, argExpr(kd, "a", int64(10+i)))
+		args = append(args, argExpr(kd, base, int64(10+i)))
 	}
 	var callee *Node
 	var pre []*Node
@@ -333,16 +353,36 @@ func (gc *GridCase) Build() {
 		call = CallN("apply", Var("f"), Arr(args...))
 	case RMap:
 		call = CallN("map", Var("f"), Arr(args...))
-	case RRec, RTail:
+	case RRec, RTail, RRedef:
 		call = Call(callee, append([]*Node{Int(2)}, args...)...)
 	default:
 		call = Call(callee, args...)
 	}
-	caller := Defn("caller", callerParams, "", Let(false, []string{"a"}, []*Node{Int(100)}, call))
+	callerBody := Let(false, []string{"a"}, []*Node{Int(100)}, call)
+	var callerForms []*Node
+	switch gc.Caller {
+	case 1:
+		callerForms = []*Node{Defn("mk", []string{"k"}, "", Fn(callerParams, "", callerBody)), Def("caller", CallN("mk", Int(0)))}
+	case 2:
+		callerForms = []*Node{Defn("mk2", []string{"k2"}, "", Fn([]string{"k"}, "", Fn(callerParams, "", callerBody))),
+			Def("caller", Call(CallN("mk2", Int(0)), Int(0)))}
+	default:
+		callerForms = []*Node{Defn("caller", callerParams, "", callerBody)}
+	}
 
-	forms := []*Node{Def("cnt", Int(0)), fdef}
+	forms := []*Node{Def("cnt", Int(0))}
+	if route == RRedef {
+		// an earlier evaluation defines f with the same arity and the opposite laziness
+		old := []string{"n"}
+		for i, l := range sh.Lazy {
+			old = append(old, pname(i, !l))
+		}
+		forms = append(forms, Defn("f", old, rest, Int(0)))
+		gc.Split = len(forms)
+	}
+	forms = append(forms, fdef)
 	forms = append(forms, pre...)
-	forms = append(forms, caller)
+	forms = append(forms, callerForms...)
 	forms = append(forms, Def("res", CallN("caller", callerArgs...)))
 	nlazy := 0
 	for _, l := range sh.Lazy {
@@ -368,7 +408,7 @@ func (gc *GridCase) Build() {
 	if route == RTyped {
 		gc.Typed = []string{"f"}
 	}
-	gc.Tags = []string{"stream:grid", "route:" + routeName[route], "pattern:" + patName[pat], "shape:" + sh.String()}
+	gc.Tags = []string{"stream:grid", "route:" + routeName[route], "pattern:" + patName[pat], "shape:" + sh.String(), "caller:" + callerKindName[gc.Caller]}
 	for _, kd := range gc.Kinds {
 		if kd != KT {
 			gc.Tags = append(gc.Tags, "argkind:"+kindName[kd])
@@ -541,6 +581,7 @@ func (gc *GridCase) Build() {
 func EachGrid(full bool, emit func(*GridCase)) {
 	shapes := allShapes()
 	rot := 0
+	crot := 0
 	for _, sh := range shapes {
 		k := len(sh.Lazy)
 		nargs := k
@@ -577,7 +618,7 @@ func EachGrid(full bool, emit func(*GridCase)) {
 						rot += 7
 					}
 				}
-				for _, kv := range kindVecs {
+				for vi, kv := range kindVecs {
 					nargsHere := kv
 					if route == RMap {
 						// two elements, each a call with one argument
@@ -586,9 +627,16 @@ func EachGrid(full bool, emit func(*GridCase)) {
 							nargsHere = nargsHere[:2]
 						}
 					}
-					gc := &GridCase{Shape: sh, Route: route, Pat: pat, Kinds: nargsHere}
-					gc.Build()
-					emit(gc)
+					kinds := []int{crot % nCallerKinds}
+					crot++
+					if full && vi == 0 {
+						kinds = []int{0, 1, 2}
+					}
+					for _, ck := range kinds {
+						gc := &GridCase{Shape: sh, Route: route, Pat: pat, Kinds: nargsHere, Caller: ck}
+						gc.Build()
+						emit(gc)
+					}
 				}
 			}
 		}
